@@ -153,13 +153,27 @@ def text_class(chars):
 def signature(step, why):
     arg = step["arg"]
     kind = why.split(":")[0].lower()
+    if kind in ("crash", "hang"):
+        kind += "-" + why.split(":")[1].strip().split(" ")[0] if ":" in why else ""
     if step["a"] == "conv":
         return "conv:%s:%s>%s:%s" % (arg["api"], arg["src"], arg["dst"], kind)
     return "text:%s:%s:%s:%s" % (arg["api"], arg["dst"], text_class(arg["chars"]), kind)
 
 
+_PHASE = {}
+
+
 def crash_phase(exe, step):
-    """Diagnostic re-run of a faulting call: with destination only / without destination only."""
+    """Diagnostic re-run of a faulting call: with destination only / without destination only
+    (once per call family, source and target type)."""
+    arg = step["arg"]
+    key = (step["a"], arg["api"], arg.get("src"), arg["dst"], arg.get("fn"))
+    if key not in _PHASE:
+        _PHASE[key] = _crash_phase(exe, step)
+    return _PHASE[key]
+
+
+def _crash_phase(exe, step):
     ph = []
     for mode in ("store", "query"):
         recs, _ = vlib.run_driver(exe, "B 0\n" + step_line(step, mode) + "\n")
@@ -334,6 +348,9 @@ def gen_text_cases(ck, cfg):
               "02000000000000000000000", "zzzzzzzzzzzzz", "1y2p0ij32e8e7", "1y2p0ij32e8e8", "3w5e11264sgsf", "3w5e11264sgsg"]:
         for base in (0, 10, 16, 36):
             texts.add((t, base))
+    for t in ["1", "-1", " 10", "z"]:
+        for base in (1, 37, -1, 64):     # not a base of strtol
+            texts.add((t, base))
     ftexts = ["1e38", "3.4028235e38", "3.4028236e38", "3.40282357e38", "340282356779733661637539395458142568447",
               "340282356779733661637539395458142568448", "1e39", "-1e39", "1e-45", "1.4e-45", "7e-46", "1e-46", "1e-60", "1e308",
               "1.7976931348623157e308", "1.7976931348623158e308", "1.7976931348623159e308", "1.8e308", "1e309", "-1e309", "5e-324",
@@ -418,9 +435,20 @@ def to_events(cases, recs):
     return ev
 
 
+class Check(vlib.Check):
+    """at most three replay files per signature (a broken range test fails for thousands of values)"""
+
+    def violation(self, sig, detail):
+        n = sum(1 for s, _ in self.violations if s == sig)
+        if n >= 3:
+            self.notes["violations_not_written"] = self.notes.get("violations_not_written", 0) + 1
+            return True
+        return vlib.Check.violation(self, sig, detail)
+
+
 def run(tier):
     cfg = CFG[tier]
-    ck = vlib.Check(PID, tier)
+    ck = Check(PID, tier)
     exe = vlib.build_driver("convert", ["convert.c"])
     pool = ThreadPoolExecutor(max_workers=6)
 
@@ -450,7 +478,7 @@ def run(tier):
     acases = expand_gen(behs)
     vlib.log("A: %d cases exported by TLC (%.1fs)" % (len(acases), time.time() - ck.t0))
     arecs = run_cases(exe, acases, parts=8)
-    n_acc = n_must = 0
+    n_acc = n_must = n_des = n_des_eq = 0
     nontriv = set()
     for st, rec in zip(acases, arecs):
         why = None
@@ -463,6 +491,12 @@ def run(tier):
             if st["a"] == "conv" and "v" in obs and numkey(obs["v"]) != numkey(st["arg"]["v"]):
                 raise vlib.MachineryError("source value did not reach the driver unchanged: %r / %r" % (st["arg"], obs["v"]))
             why = match(st["exp"], obs, st)
+            des = st["exp"].get("design") or {}
+            if st["a"] == "conv" or st["arg"]["dst"] not in FLOATS:      # Tier 2 has no model of strtod
+                n_des += 1
+                if des.get("r") == obs.get("r") and (obs.get("r") != "ok" or obs.get("st") == 0 or (
+                        numkey(des["w"]) == numkey(obs["w"]) and des.get("used") == obs.get("used"))):
+                    n_des_eq += 1
             if obs.get("r") == "ok":
                 n_acc += 1
                 nontriv.add(step_line(st))
@@ -475,6 +509,7 @@ def run(tier):
     ck.notes["replayed_cases"] = len(acases)
     ck.notes["replayed_accepted_and_equal"] = n_acc
     ck.notes["replayed_refusal_obliged"] = n_must
+    ck.notes["design_prediction_equal_to_code"] = "%d of %d (diagnostic: how closely Tier 2 mirrors the code; not a verdict)" % (n_des_eq, n_des)
 
     vlib.log("A: compared (%.1fs)" % (time.time() - ck.t0))
     # 3b. TLC judges the recorded events
